@@ -115,6 +115,22 @@ def check_unit(case, rec):
             if not U.result_equal(r3, r2.T, tol):
                 fails.append(Failure("%s|transpose:%s:value" % (sig, cls), "cmd(x.T) != cmd(x).T for shape %r" % (shape,)))
                 break
+    # many cells: the same cells laid end to end k times give the same results k times over (statistics of the valid
+    # cells -- minimum, maximum, mean, population spread -- do not change when every cell is repeated)
+    k = case.get("rep")
+    if k and st0 == "ok" and n_cells and not fails:
+        big = [numpy.ma.concatenate([a] * k) if numpy.ma.isMaskedArray(a) else numpy.concatenate([a] * k) for a in base_arrays]
+        big = [numpy.ma.array(b, copy=False) for b in big]
+        st4, r4 = A.run_command(cmd, big, case["params"])
+        rec.label("replicated:x%d" % k)
+        if kind_of(st4, r4) != k0:
+            fails.append(Failure(sig + "|replicate:outcome", "%d cells x %d: %s vs %s" % (n_cells, k, kind_of(st4, r4), k0)))
+        elif not isinstance(r4, numpy.ndarray) or r4.shape != (n_cells * k,):
+            fails.append(Failure(sig + "|replicate:shape", "%r for %d cells" % (getattr(r4, "shape", None), n_cells * k)))
+        elif not U.result_equal(r4, numpy.ma.concatenate([r0] * k), max(tol, 1e-7 if cmd in R.STATISTICAL else tol)):
+            fails.append(Failure(sig + "|replicate:value", "cmd of %d copies of x != %d copies of cmd(x)" % (k, k)))
+        if k >= 1000:
+            nontrivial = True
     if st0 == "ok" and nontrivial and (cmd not in R.NARY or len(base_arrays) >= 2):
         rec.nontrivial_case(case)
         rec.label("nontrivial:" + ("nary" if cmd in R.NARY else "other"), sample=case if n_cells <= 6 else None)
@@ -127,6 +143,7 @@ def perm_case(draw):
     n = len(case["arrays"][0]["data"])
     case["perm"] = list(draw(st.permutations(list(range(n)))))
     case["shape"] = [n]
+    case["rep"] = draw(st.sampled_from([None, None, 2, 3, 1000, 6000]))
     return case
 
 
